@@ -141,3 +141,64 @@ PROPS['C09'] = dict(
     level_text="From the real AST, for descriptions of any size and any Python values inside transition_list: check_next_states returns normally only if the value is a list whose EVERY element is a 2-tuple with a str action (player states) / a number (probabilistic states) and an int successor in 0..n-1, raises only ValueError, and no subscript, len or comparison can raise TypeError/IndexError (each is typed by an earlier test); check_game returns only if lengths agree, rewards are >= 0, finals are non-empty and in range, players are known (min/max of an empty list is the ValueError CPython raises); the three node constructors and Node.__init__ set every field and validate; init_states returns only if every state has a truthy, well-formed transition list, and its nodes alias the caller's lists; the prefix of solve up to the creation of the solver is reached only for a description satisfying the whole rule list and otherwise raises ValueError.",
     level_note="Trusted: z3/cvc5, the encoder's PyVal model of dynamic typing, the rule list as written in WF(G). The typed-world solver contracts assume what this prefix establishes (A-BRIDGE). run_games is bounded only.",
 )
+
+REW_LEMMAS = ['L_LastMax_range', 'L_LastMin_range', 'L_MinSel_is_min', 'L_FilterIn_first', 'L_ArgEqR_from', 'L_MinW0_lip', 'L_MinW0_nonneg', 'L_MaxS_nonneg', 'L_SumS_nonneg', 'L_BW_lip', 'L_BW_nonneg']
+ZERO_LEMMAS = ['L_MaxS_zero', 'L_MinS_zero', 'L_SumS_zero', 'L_BR_zero']
+PROPS['C01']['lemmas'] = SWEEP_LEMMAS + ZERO_LEMMAS + RDFS_LEMMAS
+PROPS['C01']['assumptions'] = PROPS['C01']['assumptions'] + [A_BRIDGE, A_CR, A_SORT, A_VALUE]
+PROPS['C01']['level_text'] += " The composed reachability phase (Solver.solve_reachability: backward search, sweep, strategy table) is verified against the statement itself: finals report exactly 1; every non-final state outside ANY predicate closed under the can-reach rules reports exactly 0; 0 <= rp <= V; every non-final state (inside or outside the search result) has Bellman residual <= threshold."
+PROPS['C04']['lemmas'] = PROPS['C04']['lemmas'] + ZERO_LEMMAS + RDFS_LEMMAS
+PROPS['C02'] = dict(
+    functions=fns('C02'),
+    lemmas=SWEEP_LEMMAS + COND_LEMMAS + REW_LEMMAS,
+    assumptions=COMMON + [A_ROUND, A_VALID, A_VSTAR, A_F0, A_BRIDGE, "rewards >= 0 and, for probabilistic states with a non-empty list, probabilities >= 0 summing to 1 (Proper(G); after conditioning this is prune_paths' postcondition)"],
+    trusted_base=['spec function BW of contracts/tad_spec.py: 0 without transitions, else reward + max / min / probability-weighted sum (the reward Bellman operator of the statement)', 'Filter/Renorm spec functions for the conditioned game'],
+    undecided_clauses=["'equals, within convergence tolerance, the max-min expected total reward': needs a convergence-rate argument (same stopping rule as F-ACC) and the theory of stopping games; what is proved is the Bellman-consistency form the quantifier text gives: the reported vector is a fixed point of the CURRENT (conditioned) node lists' reward equations up to the threshold, at every state",
+                       "that the node lists at that point are exactly Cond(G, rp, sigma, prune) on every state reachable from the initial state is proved per method (prune_paths, prune_paths_reachability, prune_reachability, prune_states); the composition inside solve/prune_stochastich_game is covered by the bounded executable contracts"],
+    termination_unproved=['Solver.value_iteration_total_rewards: no variant (two diagnostic vectors follow an arg-max that may switch); diverges on non-stopping games'],
+    level_text="From the real AST, for games of any size: each node step returns BW (0 for an empty list, else reward + max / min / sum p*er over the node's CURRENT list); the reward sweep keeps er >= 0, writes only the three reward fields of solver nodes and ends with |er[s] - BW(s, er)| <= threshold for EVERY state (1-Lipschitz lemma of BW proved by induction); the conditioning methods produce exactly the Filter/Renorm lists of the statement (C03).",
+    level_note="Trusted: z3/cvc5, the encoder, A-REAL. Equality with the true conditioned value is not decided (known finding F-ACC covers the stopping rule); termination of the reward sweep is not proved; the solve-level composition is bounded.",
+)
+PROPS['C05'] = dict(
+    functions=fns('C05'),
+    lemmas=['L_ArgEqR_empty_above', 'L_ArgEqR_empty_below', 'L_ArgEqR_empty_below0', 'L_ArgEqR_from', 'L_FL_from', 'L_FL_keeps'] + COND_LEMMAS,
+    assumptions=COMMON + [A_ROUND, A_VALID],
+    trusted_base=['ArgEqR/MaxR/MinR0/FilterLab spec functions'],
+    undecided_clauses=["optimality w.r.t. the TRUE conditioned rewards in cyclic games (C02's accuracy clause)",
+                       "the inclusion final[s] within reach[s] is the composition: labels(ArgEqR(list)) are labels of the list (lemma L_ArgEqR_from, proved) and the list after prune_reachability is FilterLab(old, reach[s]) whose labels lie in reach[s] (lemma L_FL_from, proved) and later steps only remove (C03 frames); the composition across solve is covered by the bounded executable contracts"],
+    level_text="From the real AST: get_best/get_worst_strategies_total_rewards return, in transition order, exactly the labels of the CURRENT list whose successor's rounded expected reward is maximal (Player 1, floored at 0) / minimal (Player 2, [] on an empty list); the table has None for probabilistic states; prune_reachability leaves at each Player 1 state exactly the transitions whose label is in the reported reachability strategy. The two inclusion lemmas (labels of an arg-list are labels of the list; labels of FilterLab(list, best) are in best) are proved by induction.",
+    level_note="Trusted: z3/cvc5, the encoder, A-REAL, A-ROUND. Composition across solve is bounded.",
+)
+ALL_SOLVER = [q for q in _C if (q.startswith('tad.') or q.startswith('reverse_dfs.')) and not _C[q].get('external')]
+PROPS['C06'] = dict(
+    functions=ALL_SOLVER,
+    lemmas=SWEEP_LEMMAS + ZERO_LEMMAS + COND_LEMMAS + REW_LEMMAS + RDFS_LEMMAS + ['L_ArgEqR_empty_above', 'L_ArgEqR_empty_below', 'L_ArgEqR_empty_below0'],
+    static=[('no-recursion-in-backward-search', ST.no_self_call('reverse_dfs', 'reverse_dfs_recursive'))],
+    assumptions=COMMON + [A_ROUND, A_VALID, A_PYVAL, A_BRIDGE, A_VSTAR, A_F0, A_CR, A_SORT, A_VALUE],
+    trusted_base=['every operation that can raise (subscript, division, dict key, min/max of empty, unbound local, len/compare of a non-number, round digits) generates a safety obligation unless the contract admits that exception'],
+    undecided_clauses=["'rp[0] = 0 implies the true value is 0' (the converse of the proved 'V*[0] = 0 implies refused'): an accuracy statement; false on the real code for slowly propagating values (known finding F-ZERO)",
+                       "composition of the phases inside StochasticGame.solve after the validating prefix, and prune_stochastich_game / solve_total_rewards / Solver.__init__ / count_transitions, are not yet under contract: covered by the bounded executable contracts"],
+    termination_unproved=['reverse_dfs_recursive (work-list loop)', 'Solver.value_iteration_reachability (real-valued progress argument not mechanised)', 'Solver.prune_states', 'Solver.value_iteration_total_rewards (diverges on non-stopping games)'],
+    level_text="Exception freedom and the admitted exception, from the real AST of 45 functions of tad.py and reverse_dfs.py: every subscript is in range, every division is by a non-zero value, every local is bound before use, every dict key is present, every min/max is of a non-empty list (or raises the admitted ValueError), no method modifies anything outside its frame; the validating prefix raises ValueError exactly for malformed descriptions; the reachability phase raises exactly when pruning is on and the reported rp[0] is 0 (and since 0 <= rp <= V*, a game whose true initial value is 0 is always refused).",
+    level_note="Trusted: z3/cvc5, the encoder. Termination is proved for none of the four unbounded loops (listed); the bounded executable contracts run the real solve under a time limit on ~1500 stopping games. The converse of the refusal rule is a known finding (F-ZERO).",
+)
+PROPS['C14'] = dict(
+    functions=fns('C14'),
+    lemmas=SWEEP_LEMMAS + REW_LEMMAS + ['L_ArgEqR_empty_below'],
+    assumptions=COMMON + [A_ROUND, A_VALID, A_VSTAR],
+    trusted_base=['LastMax / LastMin / MinSel / FilterIn spec functions: which successor each diagnostic follows'],
+    undecided_clauses=["that the two outputs EQUAL the reach probability / expected reward of the chain induced by the reported strategies needs convergence of the sweep and agreement between the successor followed at the last sweep and the reported single action; only which successor is followed and with which formula is proved",
+                       "the diagnostics are not covered by the residual bound (their operators follow an arg-max and are not Lipschitz in er)"],
+    level_text="From the real AST: Player 1's step returns for both diagnostics the value at the LAST successor attaining the maximal expected reward (+ reward for the reward diagnostic); Player 2's step returns the reach diagnostic at the last successor attaining the minimal expected reward and, for 'rewards under minimal reachability', reward + the minimum of that vector over exactly the actions of its reachability strategy (ArgEqR of the rounded minimum, hard-coded 6 digits = the solver's floor), 0 if that list is empty; probabilistic steps return the p-weighted sums; all three are 0 for an empty list; the reachability sweep seeds the reach diagnostic with rp for every state.",
+    level_note="Trusted: z3/cvc5, the encoder, A-REAL, A-ROUND. Equality with the induced chain's values is bounded only (acyclic games in the executable contracts).",
+)
+PROPS['C13'] = dict(
+    functions=sorted(set(fns('C13'))),
+    lemmas=COND_LEMMAS + RDFS_LEMMAS + ['L_ArgEqR_empty_above', 'L_ArgEqR_empty_below', 'L_ArgEqR_from'] + SWEEP_LEMMAS,
+    assumptions=COMMON + [A_ROUND, A_VALID, A_VALUE, A_SORT],
+    trusted_base=['the postconditions of the pipeline are stated over spec functions of the transition list contents (Filter by predicate on the element, arg-lists by value equality, counts, closures), never over positions or identities'],
+    undecided_clauses=["C13 relates TWO runs on two presentations; a contract speaks about one run. What is proved is that every postcondition in the pipeline is a function of presentation-free data (which transitions exist, their labels, probabilities, targets and the values at the targets): the conditioning keeps an element iff a predicate of the element holds (position-independent), the strategy lists contain a label iff the successor's rounded value equals the extremum, the search result is a set characterised by closure. The lemmas that these spec functions commute with a permutation of states / transitions are NOT mechanised",
+                       "'probabilities and rewards change only by the renumbering within tolerance' and 'solvability never changes' are accuracy statements about two different Gauss-Seidel orders; the second is false on the real code (known finding F-ZERO)"],
+    level_text="The check re-discharges the obligations of the functions whose postconditions carry the presentation-freeness (backward search, node steps, strategy lists, all conditioning methods): a change that makes the outcome depend on adjacency, list position or action-name order breaks one of them (the property's own example, in-place removal while iterating, is exactly what C03's Filter postcondition rejects). The relational statement itself is exercised by the bounded executable contract: random state permutations fixing 0, per-state transition shuffles and injective renamings on acyclic games, comparing all outputs.",
+    level_note="Proof level refers to the per-function obligations only; the two-run relation is bounded. Trusted: z3/cvc5, the encoder.",
+)
